@@ -1283,6 +1283,77 @@ def synth_field_extremes(name, rng, k=2, raw=False, cap=1500):
     return list(dict.fromkeys(out))
 
 
+def synth_table_boundaries(name, rng, cap=600):
+    """Valid numbers that carry, right after each possible head, the digit strings of the module's own tables (range
+    ends of hard-coded range tables and the like) and their neighbours (+-1, extended with 0s / 9s): the values on
+    both sides of every boundary the module knows about.  Check characters repaired through is_valid()."""
+    import ast
+    mod = get_module(name)
+    try:
+        tree = ast.parse(open(mod.__file__, encoding='utf-8').read())
+    except Exception:  # noqa: B902
+        return []
+    consts = []
+    for node in tree.body:
+        if not isinstance(node, (ast.Assign, ast.AnnAssign)):
+            continue
+        for sub in ast.walk(node):
+            if isinstance(sub, (ast.Tuple, ast.List, ast.Set, ast.Dict)):
+                for el in ast.walk(sub):
+                    if isinstance(el, ast.Constant) and isinstance(el.value, str) and el.value.isdigit() and el.value.isascii() \
+                            and 2 <= len(el.value) <= 9 and el.value not in consts:
+                        consts.append(el.value)
+    if not consts:
+        return []
+    if len(consts) > 120:
+        consts = rng.sample(consts, 120)
+    variants = []
+    for c in consts:
+        w = len(c)
+        vs = {c, c + '0', c + '9', c + '00', c + '99'}
+        for d in (-1, 1):
+            x = int(c) + d
+            if 0 <= x < 10 ** w:
+                vs.add(str(x).zfill(w))
+                vs.add(str(x).zfill(w) + ('9' if d < 0 else '0'))
+                vs.add(str(x).zfill(w) + ('99' if d < 0 else '00'))
+        variants.extend(sorted(vs))
+    variants = list(dict.fromkeys(variants))
+    canon = []
+    for v in corpus(name, limit=40, rng=rng):
+        try:
+            c = mod.validate(v)
+        except Exception:  # noqa: B902
+            continue
+        if isinstance(c, str) and c and (len(c), c[:1].isdigit()) not in [(len(x), x[:1].isdigit()) for x in canon]:
+            canon.append(c)
+        if len(canon) >= 3:
+            break
+    cands = []
+    for c in canon:
+        dpos = [i for i, ch in enumerate(c) if ch.isdigit()]
+        for start in dpos[:7]:
+            for v in variants:
+                if start + len(v) <= len(c) - 1 and c[start:start + len(v)].isdigit():
+                    cands.append(c[:start] + v + c[start + len(v):])
+    cands = list(dict.fromkeys(cands))
+    if len(cands) > cap:
+        cands = rng.sample(cands, cap)
+    out = []
+    for cand in cands:
+        try:
+            ok = mod.is_valid(cand) is True
+        except Exception:  # noqa: B902
+            ok = False
+        if not ok:
+            cand = _repair(mod, cand)
+            if cand is None:
+                continue
+        if cand not in out:
+            out.append(cand)
+    return out
+
+
 def synth_boundaries(name, rng, k=3):
     """Valid numbers with runs of 9s / 0s after each possible leading digit (range boundaries such as ...099,
     ...3999, ...69999 in hard-coded or registry range tables), check characters repaired through is_valid()."""
